@@ -439,7 +439,23 @@ func (bl *ToBoltListener) ExitAndExpr(c *zitiql.AndExprContext) {
 	left := bl.popNode()
 
 	if !bl.HasError() {
+		// The generated parser hands AND the whole rest of the expression as its right operand, so
+		// `a and b or c` arrives as `a and (b or c)`. AND binds tighter than OR: unless the OR was
+		// written in parentheses, re-associate to `(a and b) or c`.
+		if or, ok := right.(*BooleanLogicExprNode); ok && or.op == OrOp && !or.grouped {
+			left = &BooleanLogicExprNode{left: left, right: or.left, op: AndOp}
+			bl.pushStack(&BooleanLogicExprNode{left: left, right: or.right, op: OrOp})
+			return
+		}
 		bl.pushStack(&BooleanLogicExprNode{left: left, right: right, op: AndOp})
+	}
+}
+
+// ExitGroup remembers that a boolean expression was written in parentheses
+func (bl *ToBoltListener) ExitGroup(c *zitiql.GroupContext) {
+	bl.printDebug(c)
+	if node, ok := bl.peekStack().(*BooleanLogicExprNode); ok {
+		node.grouped = true
 	}
 }
 
